@@ -107,7 +107,7 @@ def one(ctx, rng, xr, frequency, direction, construct_partition):
         okk = close(a.values, b.values, 1e-9, atol=1e-12 * np.abs(b.values).max())[0]
         (rec.ok("tma_deep_is_jonswap", key) if okk else rec.bad("tma_deep_is_jonswap", key, {"fp": fpv, "hs": hsv, "gamma": gamv}, "tma-deep-water-differs-from-jonswap"))
     # --- spreading ---------------------------------------------------------------------------------------
-    nd = int(rng.choice([8, 12, 16, 24, 36, 72, 120, 360]))
+    nd = int(rng.choice([7, 8, 12, 13, 16, 21, 24, 28, 35, 36, 64, 72, 120, 128, 360]))
     dd = 360.0 / nd
     th = float(rng.choice([0.0, dd / 2, rng.uniform(0, dd)])) + dd * np.arange(nd)
     dq = xr.DataArray(th, dims=["dir"], coords={"dir": th}) if as_da else th
@@ -134,6 +134,23 @@ def one(ctx, rng, xr, frequency, direction, construct_partition):
         okk = close(Gv[k], ref, 1e-9, atol=1e-12 * ref.max())[0]
         zone = "resolved" if (dd <= sgv[k] / 2 and sgv[k] <= 50) else "unresolved"
         (rec.ok("spread_is_cos2s", skey + "|" + zone) if okk else rec.bad("spread_is_cos2s", skey + "|" + zone, {"dir": th, "dm": dmv[k], "dspr": sgv[k], "got": Gv[k], "ideal": ref}, "spreading-differs-from-cos2s"))
+    # under_90=True: the same curve restricted to within 90 deg of dm (on the circle), renormalised
+    if rng.random() < 0.4:
+        try:
+            G9 = direction.cartwright(dir=dq, dm=dm, dspr=sg, under_90=True)
+            g9 = G9.transpose(*[d for d in G9.dims if d != "dir"], "dir").values.reshape(-1, nd)
+            for k in range(g9.shape[0]):
+                dth = np.abs((th - dmv[k] + 180.0) % 360.0 - 180.0)
+                s_ = 2.0 / np.radians(sgv[k]) ** 2 - 1.0
+                ref = np.where(dth <= 90.0, np.cos(np.radians(dth) / 2.0) ** (2.0 * s_), 0.0)
+                if np.any(np.abs(dth - 90.0) < 1e-9) or ref.sum() <= 0:
+                    rec.skip("spread_under_90", "a direction exactly 90 deg from dm")
+                    continue
+                ref = ref / (ref.sum() * dd)
+                okk = close(g9[k], ref, 1e-9, atol=1e-12 * ref.max())[0] and abs(g9[k].sum() * dd - 1) <= 1e-12
+                (rec.ok("spread_under_90", skey) if okk else rec.bad("spread_under_90", skey, {"dir": th, "dm": dmv[k], "dspr": sgv[k], "got": g9[k], "ideal": ref}, "under-90-spreading-wrong"))
+        except Exception as ex:
+            rec.bad("spread_under_90", skey, {"raised": repr(ex)[:300]}, "construct-raises")
     # asymmetric spreading: normalised and non-negative for every frequency
     if rng.random() < 0.4:
         try:
